@@ -74,6 +74,16 @@ class StoreMachine(Machine):
     def path(self, fname):
         return ROOT + fname
 
+    def pick_slot(self, c):
+        """Choice -> a slot that holds an object (any sub-list of ops stays meaningful)."""
+        live = sorted(self.objs)
+        return live[c % len(live)] if live else c % self.SLOTS
+
+    def pick_name(self, c):
+        """Choice -> a name that has been written (or put there by another party)."""
+        have = sorted(self.ref)
+        return have[c % len(have)] if have else self.NAMES[c % len(self.NAMES)]
+
     def io(self, fn, fault, dry, what):
         """Run one repo I/O operation under an optional fault.  Returns (status, result)."""
         ctx, fs = self.ctx, self.ctx.fs
